@@ -81,6 +81,13 @@ type Case struct {
 	Sends []SendStmt       `json:"sends"`
 	Bal   map[string]int64 `json:"bal"`
 	Exp   Outcome          `json:"exp"`
+	// K > 0: ExpK is what the source defines for the case with every amount multiplied by K, a common
+	// multiple of the portion denominators (so that amounts K*u split into portions without remainders)
+	K    int64   `json:"k"`
+	ExpK Outcome `json:"expK"`
+	// Binding "collide": each send lives in its own asset and account space, named so that
+	// account+asset concatenations coincide across sends
+	Binding string `json:"binding"`
 }
 
 type Result struct {
@@ -94,42 +101,128 @@ type Result struct {
 	ScaledInexact bool      `json:"scaledInexact"`
 	Text          string    `json:"text"`
 	Again         bool      `json:"againSame"`
+	// other spellings of the same program (portions as percentages, overdraft bounds as differences,
+	// the asset passed as a variable - twice, with two assets, through the compilation cache):
+	// the outcomes that differ from Real, judged like Real; Spelling names the first one that differs
+	SpellingBad []Outcome `json:"spellingBad"`
+	Spelling    string    `json:"spelling"`
+	// executions at K*u (u around 2^55): outcomes divided by u that differ from ExpK
+	UnitBad     []Outcome `json:"unitBad"`
+	UnitInexact bool      `json:"unitInexact"`
+	Unit        string    `json:"unit"`
 }
 
 // ---- rendering ------------------------------------------------------------
 
-func mon(n int64, k *big.Int) string {
-	v := new(big.Int).Mul(big.NewInt(n), k)
-	return fmt.Sprintf("[%s %s]", asset, v.String())
+// style: how an abstract program is spelled
+type style struct {
+	k        *big.Int
+	pct      bool   // portions as percentages, where the decimal expansion is finite
+	odExpr   bool   // overdraft bounds as a difference of two monetaries
+	assetVar bool   // amounts as [$as N], the asset being a variable
+	collide  bool   // send i uses asset collideAssets[i] and accounts renamed by collideName
+	send     int    // index of the send being rendered
 }
 
-func por(p Por) string {
+var collideAssets = []string{"USD", "SD"}
+
+// account names of send i under the colliding binding: send 1's accounts get a trailing "U", so
+// that e.g. ("a", "USD") and ("aU", "SD") concatenate to the same string
+func (st style) acct(a string) string {
+	if st.collide && st.send == 1 && a != "world" {
+		return collideName(a)
+	}
+	return a
+}
+
+// send 1 of a colliding case uses the symbols b / y where send 0 uses a / x: they become "aU" / "xU"
+func collideName(a string) string {
+	switch a {
+	case "b":
+		return "aU"
+	case "y":
+		return "xU"
+	}
+	return a + "U"
+}
+
+func collideSymbol(name string) string {
+	switch name {
+	case "aU":
+		return "b"
+	case "xU":
+		return "y"
+	}
+	return strings.TrimSuffix(name, "U")
+}
+
+func (st style) assetName() string {
+	if st.collide {
+		return collideAssets[st.send%2]
+	}
+	return asset
+}
+
+func mon(n int64, st style) string {
+	v := new(big.Int).Mul(big.NewInt(n), st.k)
+	if st.assetVar {
+		return fmt.Sprintf("[$as %s]", v.String())
+	}
+	return fmt.Sprintf("[%s %s]", st.assetName(), v.String())
+}
+
+// percent spelling of n/d when n*100/d has a finite decimal expansion
+func percent(p Por) (string, bool) {
+	r := new(big.Rat).SetFrac(big.NewInt(p.N*100), big.NewInt(p.D))
+	den := new(big.Int).Set(r.Denom())
+	for _, f := range []int64{2, 5} {
+		for new(big.Int).Mod(den, big.NewInt(f)).Sign() == 0 {
+			den.Div(den, big.NewInt(f))
+		}
+	}
+	if den.Cmp(big.NewInt(1)) != 0 {
+		return "", false
+	}
+	txt := r.FloatString(12)
+	txt = strings.TrimRight(txt, "0")
+	txt = strings.TrimSuffix(txt, ".")
+	return txt + "%", true
+}
+
+func por(p Por, st style) string {
 	if p.N < 0 {
 		return "remaining"
+	}
+	if st.pct {
+		if t, ok := percent(p); ok {
+			return t
+		}
 	}
 	return fmt.Sprintf("%d/%d", p.N, p.D)
 }
 
 func indent(s string) string { return strings.ReplaceAll(s, "\n", "\n\t") }
 
-func srcText(s Src, k *big.Int) string {
+func srcText(s Src, st style) string {
 	switch s.T {
 	case "acct":
-		out := "@" + s.A
+		out := "@" + st.acct(s.A)
 		switch {
 		case s.Od == -2:
 			out += " allowing unbounded overdraft"
+		case s.Od >= 0 && st.odExpr:
+			out += " allowing overdraft up to " + mon(s.Od+5, st) + " - " + mon(5, st)
 		case s.Od >= 0:
-			out += " allowing overdraft up to " + mon(s.Od, k)
+			out += " allowing overdraft up to " + mon(s.Od, st)
 		}
 		return out
 	case "max":
-		return "max " + mon(s.Cap, k) + " from " + srcText(s.Ss[0], k)
+		return "max " + mon(s.Cap, st) + " from " + srcText(s.Ss[0], st)
 	case "seq":
 		var sb strings.Builder
 		sb.WriteString("{\n")
 		for _, x := range s.Ss {
-			sb.WriteString("\t" + indent(srcText(x, k)) + "\n")
+			sb.WriteString("\t" + indent(srcText(x, st)) + "\n")
 		}
 		sb.WriteString("}")
 		return sb.String()
@@ -137,7 +230,7 @@ func srcText(s Src, k *big.Int) string {
 		var sb strings.Builder
 		sb.WriteString("{\n")
 		for i, x := range s.Ss {
-			sb.WriteString("\t" + por(s.Ports[i]) + " from " + indent(srcText(x, k)) + "\n")
+			sb.WriteString("\t" + por(s.Ports[i], st) + " from " + indent(srcText(x, st)) + "\n")
 		}
 		sb.WriteString("}")
 		return sb.String()
@@ -145,30 +238,30 @@ func srcText(s Src, k *big.Int) string {
 	return "?"
 }
 
-func kd(d Dst, k *big.Int) string {
+func kd(d Dst, st style) string {
 	if d.T == "kept" {
 		return "kept"
 	}
-	return "to " + dstText(d, k)
+	return "to " + dstText(d, st)
 }
 
-func dstText(d Dst, k *big.Int) string {
+func dstText(d Dst, st style) string {
 	switch d.T {
 	case "acct":
-		return "@" + d.A
+		return "@" + st.acct(d.A)
 	case "seq":
 		var sb strings.Builder
 		sb.WriteString("{\n")
 		for i, c := range d.Caps {
-			sb.WriteString("\tmax " + mon(c, k) + " " + indent(kd(d.Ds[i], k)) + "\n")
+			sb.WriteString("\tmax " + mon(c, st) + " " + indent(kd(d.Ds[i], st)) + "\n")
 		}
-		sb.WriteString("\tremaining " + indent(kd(d.Ds[len(d.Ds)-1], k)) + "\n}")
+		sb.WriteString("\tremaining " + indent(kd(d.Ds[len(d.Ds)-1], st)) + "\n}")
 		return sb.String()
 	case "allot":
 		var sb strings.Builder
 		sb.WriteString("{\n")
 		for i, x := range d.Ds {
-			sb.WriteString("\t" + por(d.Ports[i]) + " " + indent(kd(x, k)) + "\n")
+			sb.WriteString("\t" + por(d.Ports[i], st) + " " + indent(kd(x, st)) + "\n")
 		}
 		sb.WriteString("}")
 		return sb.String()
@@ -176,14 +269,23 @@ func dstText(d Dst, k *big.Int) string {
 	return "?"
 }
 
-func render(sends []SendStmt, k *big.Int) string {
+func render(sends []SendStmt, k *big.Int) string { return renderStyled(sends, style{k: k}) }
+
+func renderStyled(sends []SendStmt, st style) string {
 	var sb strings.Builder
-	for _, s := range sends {
-		amt := mon(s.Amt, k)
+	if st.assetVar {
+		sb.WriteString("vars {\n\tasset $as\n}\n")
+	}
+	for i, s := range sends {
+		st.send = i
+		amt := mon(s.Amt, st)
 		if s.Amt < 0 {
-			amt = "[" + asset + " *]"
+			amt = "[" + st.assetName() + " *]"
+			if st.assetVar {
+				amt = "[$as *]"
+			}
 		}
-		fmt.Fprintf(&sb, "send %s (\n\tsource = %s\n\tdestination = %s\n)\n", amt, indent(srcText(s.Src, k)), indent(dstText(s.Dst, k)))
+		fmt.Fprintf(&sb, "send %s (\n\tsource = %s\n\tdestination = %s\n)\n", amt, indent(srcText(s.Src, st)), indent(dstText(s.Dst, st)))
 	}
 	return sb.String()
 }
@@ -238,7 +340,48 @@ func execute(text string, vars map[string]string, store vm.Store) (out rawOutcom
 	return executeWithMeta(text, vars, store, nil)
 }
 
+// An execution leaves nothing behind: the balances of the store it was given are what they were (the VM
+// works on its own numbers), and the package-level zeros are still zero. What it leaves is reported as the
+// outcome class of that execution (and repaired, so that the damage is attributed once).
 func executeWithMeta(text string, vars map[string]string, store vm.Store, scriptMeta metadata.Metadata) (out rawOutcome) {
+	var before map[string]map[string]string
+	st, isStatic := store.(vm.StaticStore)
+	if isStatic {
+		before = map[string]map[string]string{}
+		for a, acc := range st {
+			before[a] = map[string]string{}
+			for as, v := range acc.Balances {
+				before[a][as] = v.String()
+			}
+		}
+	}
+	out = executeRaw(text, vars, store, scriptMeta)
+	if strings.HasPrefix(out.class, "panic") || out.class == "hang" {
+		return out
+	}
+	if isStatic {
+		for a, acc := range st {
+			for as, v := range acc.Balances {
+				if before[a][as] != v.String() {
+					return rawOutcome{class: fmt.Sprintf("left-behind: the store's balance of %s/%s changed from %s to %s", a, as, before[a][as], v.String())}
+				}
+			}
+		}
+	}
+	if z := (*big.Int)(machine.Zero); z.Sign() != 0 {
+		v := z.String()
+		z.SetInt64(0)
+		return rawOutcome{class: "left-behind: machine.Zero is now " + v}
+	}
+	if ledger.Zero.Sign() != 0 {
+		v := ledger.Zero.String()
+		ledger.Zero.SetInt64(0)
+		return rawOutcome{class: "left-behind: ledger.Zero is now " + v}
+	}
+	return out
+}
+
+func executeRaw(text string, vars map[string]string, store vm.Store, scriptMeta metadata.Metadata) (out rawOutcome) {
 	done := make(chan rawOutcome, 1)
 	go func() {
 		defer func() {
@@ -285,15 +428,55 @@ func executeWithMeta(text string, vars map[string]string, store vm.Store, script
 	}
 }
 
-func storeOf(bal map[string]int64, k *big.Int) vm.StaticStore {
+func storeOf(bal map[string]int64, k *big.Int) vm.StaticStore { return storeIn(bal, k, asset) }
+
+func storeIn(bal map[string]int64, k *big.Int, as string) vm.StaticStore {
 	st := vm.StaticStore{}
 	for a, v := range bal {
 		st[a] = &vm.AccountWithBalances{
 			Account:  ledger.Account{Address: a, Metadata: metadata.Metadata{}},
-			Balances: map[string]*big.Int{asset: new(big.Int).Mul(big.NewInt(v), k)},
+			Balances: map[string]*big.Int{as: new(big.Int).Mul(big.NewInt(v), k)},
 		}
 	}
 	return st
+}
+
+// colliding binding: the accounts of send 0 hold their balances in collideAssets[0]; the accounts of
+// send 1 are the same symbols with a trailing "U", holding theirs in collideAssets[1]. The case's
+// two sends use disjoint symbols, so a symbol's balance belongs to the send that names it.
+func storeCollide(c Case) vm.StaticStore {
+	st := vm.StaticStore{}
+	in := func(s SendStmt, a string) bool {
+		b, _ := json.Marshal(s)
+		return strings.Contains(string(b), `"a":"`+a+`"`)
+	}
+	for a, v := range c.Bal {
+		name, as := a, collideAssets[0]
+		if len(c.Sends) > 1 && in(c.Sends[1], a) && a != "world" {
+			name, as = collideName(a), collideAssets[1]
+		}
+		st[name] = &vm.AccountWithBalances{
+			Account:  ledger.Account{Address: name, Metadata: metadata.Metadata{}},
+			Balances: map[string]*big.Int{as: big.NewInt(v)},
+		}
+	}
+	return st
+}
+
+// wrongAsset: a posting in an asset the program never names
+func wrongAsset(r rawOutcome, allowed ...string) string {
+	for _, p := range r.posts {
+		ok := false
+		for _, a := range allowed {
+			if p.Asset == a {
+				ok = true
+			}
+		}
+		if !ok {
+			return p.Asset
+		}
+	}
+	return ""
 }
 
 // normalise: drop zero postings, merge adjacent postings with the same endpoints
@@ -372,17 +555,29 @@ var scaleFactors = func() []*big.Int {
 	return []*big.Int{p(70), p(62), new(big.Int).Sub(p(63), big.NewInt(1)), p(61), new(big.Int).Add(p(64), big.NewInt(7))}
 }()
 
+var unitFactors = func() []*big.Int {
+	p := func(n uint) *big.Int { return new(big.Int).Lsh(big.NewInt(1), n) }
+	return []*big.Int{p(55), p(56), new(big.Int).Add(p(54), p(31))}
+}()
+
 func runCase(c Case) Result {
 	one := big.NewInt(1)
+	if c.Binding == "collide" {
+		return runCollide(c)
+	}
 	text := render(c.Sends, one)
 	raw := execute(text, map[string]string{}, storeOf(c.Bal, one))
 	real, _ := outcomeOf(raw, one)
-	res := Result{Case: c, Real: real, ScaledOk: true, Text: text, ScaledBad: []Outcome{}}
+	if a := wrongAsset(raw, asset); a != "" {
+		real.Class = "wrong-asset:" + a
+	}
+	res := Result{Case: c, Real: real, ScaledOk: true, Text: text, ScaledBad: []Outcome{}, SpellingBad: []Outcome{}, UnitBad: []Outcome{}}
 	// a second execution of the same text must give the same outcome
 	raw2 := execute(text, map[string]string{}, storeOf(c.Bal, one))
 	real2, _ := outcomeOf(raw2, one)
 	res.Again = same(real, real2)
-	if !hasAllot(c) && !strings.HasPrefix(real.Class, "panic") && real.Class != "hang" {
+	crashed := strings.HasPrefix(real.Class, "panic") || real.Class == "hang"
+	if !hasAllot(c) && !crashed {
 		// every amount multiplied by K: the outcome must be the same postings times K.
 		// The factors sit around the 2^63 / 2^64 boundaries so that some amounts of a
 		// case fit a machine word and others (or their sums) do not.
@@ -401,6 +596,100 @@ func runCase(c Case) Result {
 			}
 		}
 	}
+	if hasAllot(c) && c.K > 0 && !crashed {
+		// portions at large amounts: every amount multiplied by K*u, K a common multiple of the portion
+		// denominators: every share is a whole multiple of u, and the outcome divided by u must be what the
+		// source defines for the case multiplied by K (computed by TLC). u sits around 2^55 so that amounts
+		// fit a machine word while amount x numerator does not.
+		for _, u := range unitFactors {
+			ku := new(big.Int).Mul(big.NewInt(c.K), u)
+			rawU := execute(render(c.Sends, ku), map[string]string{}, storeOf(c.Bal, ku))
+			scaled, exact := outcomeOf(rawU, u)
+			if !exact {
+				res.UnitInexact = true
+				res.Unit = "x" + ku.String()
+			} else if !same(scaled, c.ExpK) {
+				res.UnitBad = append(res.UnitBad, scaled)
+				b, _ := json.Marshal(scaled)
+				res.Unit = "x" + ku.String() + ": " + string(b)
+			}
+		}
+	}
+	if !crashed {
+		// other spellings of the same program
+		try := func(name string, st style, vars map[string]string, store vm.Store, allowed string) {
+			st.k = one
+			rawV := execute(renderStyled(c.Sends, st), vars, store)
+			o, _ := outcomeOf(rawV, one)
+			if a := wrongAsset(rawV, allowed); a != "" {
+				o.Class = "wrong-asset:" + a
+			}
+			if !same(o, real) {
+				res.SpellingBad = append(res.SpellingBad, o)
+				if res.Spelling == "" {
+					b, _ := json.Marshal(o)
+					res.Spelling = name + ": " + string(b) + " for " + renderStyled(c.Sends, st)
+				}
+			}
+		}
+		if hasAllot(c) {
+			try("portions-as-percentages", style{pct: true}, map[string]string{}, storeOf(c.Bal, one), asset)
+		}
+		if hasBoundedOverdraft(c) {
+			try("overdraft-bound-as-difference", style{odExpr: true}, map[string]string{}, storeOf(c.Bal, one), asset)
+		}
+		// the asset as a variable: the same text twice through the compilation cache, with two assets
+		try("asset-variable", style{assetVar: true}, map[string]string{"as": asset}, storeOf(c.Bal, one), asset)
+		try("asset-variable-other-asset", style{assetVar: true}, map[string]string{"as": "EUR/2"}, storeIn(c.Bal, one, "EUR/2"), "EUR/2")
+	}
+	return res
+}
+
+func hasBoundedOverdraft(c Case) bool {
+	var f func(s Src) bool
+	f = func(s Src) bool {
+		if s.T == "acct" && s.Od >= 0 {
+			return true
+		}
+		for _, x := range s.Ss {
+			if f(x) {
+				return true
+			}
+		}
+		return false
+	}
+	for _, s := range c.Sends {
+		if f(s.Src) {
+			return true
+		}
+	}
+	return false
+}
+
+// runCollide: two sends in two assets over disjoint accounts whose names are chosen so that
+// account+asset strings coincide across the sends
+func runCollide(c Case) Result {
+	one := big.NewInt(1)
+	st := style{k: one, collide: true}
+	text := renderStyled(c.Sends, st)
+	raw := execute(text, map[string]string{}, storeCollide(c))
+	// postings back to the case's symbols
+	for i := range raw.posts {
+		raw.posts[i].Source = collideSymbol(raw.posts[i].Source)
+		raw.posts[i].Destination = collideSymbol(raw.posts[i].Destination)
+	}
+	real, _ := outcomeOf(raw, one)
+	if a := wrongAsset(raw, collideAssets...); a != "" {
+		real.Class = "wrong-asset:" + a
+	}
+	res := Result{Case: c, Real: real, ScaledOk: true, Text: text, ScaledBad: []Outcome{}, SpellingBad: []Outcome{}, UnitBad: []Outcome{}}
+	raw2 := execute(text, map[string]string{}, storeCollide(c))
+	for i := range raw2.posts {
+		raw2.posts[i].Source = collideSymbol(raw2.posts[i].Source)
+		raw2.posts[i].Destination = collideSymbol(raw2.posts[i].Destination)
+	}
+	real2, _ := outcomeOf(raw2, one)
+	res.Again = same(real, real2)
 	return res
 }
 
@@ -515,8 +804,19 @@ func runProgs(progs []ProgCase, out, stats string) {
 			}
 		}()
 	}
+	// programs that may keep a reference to a shared number (save) run first, one at a time, so that
+	// whatever one of them leaves behind is found right after it, by itself
+	solo := map[int]bool{}
 	for i := range progs {
-		ch <- i
+		if strings.Contains(stmtKinds(progs[i].Prog), "save") {
+			solo[i] = true
+			results[i] = runProg(progs[i])
+		}
+	}
+	for i := range progs {
+		if !solo[i] {
+			ch <- i
+		}
 	}
 	close(ch)
 	wg.Wait()
